@@ -976,13 +976,40 @@ pub fn judge(case: &ThrCase, out: &RunOut, prop: Prop) -> R<CaseReport> {
             .map(|w| (w.inv, w.res, &w.kind))
             .collect();
         let mut last_event: std::collections::BTreeMap<usize, u64> = std::collections::BTreeMap::new();
+        // (invocation of the previous event): subscribers that exist from the start were created at time 0
+        let mut last_event_inv: std::collections::BTreeMap<usize, u64> = std::collections::BTreeMap::new();
+        if !case.late_subs {
+            for t in 0..case.threads.len() {
+                last_event_inv.insert(t, 0);
+            }
+        }
+        let any_drop_before = |t: u64| out.recs.iter().any(|d| matches!(d.kind, Kind::Drop) && d.inv < t);
         for r in &out.recs {
+            // the converse: a poll that yields an item needs a notifying write that had not already
+            // completed when the subscriber's previous event (which left it up to date) was invoked
+            if let Kind::Poll { sub, res: PR::Item(v), .. } = &r.kind {
+                if let Some(prev_inv) = last_event_inv.get(sub) {
+                    rep.checks += 1;
+                    if !writes.iter().any(|(winv, wres, _)| wres > prev_inv && *winv < r.res) {
+                        let props: &[Prop] = if writes.is_empty() && any_drop_before(r.res) { &[C04, C01, C03] } else { &[C04, C01] };
+                        return fail(
+                            prop,
+                            props,
+                            format!(
+                                "subscriber {sub}: poll yielded {v} although no notifying write was in progress or began between the subscriber's previous event and this poll ({})",
+                                sched()
+                            ),
+                        );
+                    }
+                }
+            }
             let (sub, pending) = match &r.kind {
                 Kind::Poll { sub, res, .. } => (*sub, *res == PR::Pending),
                 Kind::NextNow { sub, .. } => (*sub, false),
                 Kind::Subscribe { sub, .. } => (*sub, false),
                 _ => continue,
             };
+            last_event_inv.insert(sub, r.inv);
             if pending {
                 if let Some(prev_res) = last_event.get(&sub) {
                     rep.checks += 1;
